@@ -1,5 +1,5 @@
 (** * C04 -- a product of operators acts as its factors applied in queue order *)
-From QV Require Import Spec Expr ScalarR C04T.
+From QV Require Import Spec Expr ScalarR C04T C04T2.
 
 Theorem C04_pingpong : C04_pingpong_stmt.
 Proof. exact C04_pingpong_proof. Qed.
@@ -12,3 +12,7 @@ Print Assumptions C04_assembly.
 Theorem C04_sequence : C04_sequence_stmt.
 Proof. exact C04_sequence_proof. Qed.
 Print Assumptions C04_sequence.
+
+Theorem C04_commute : C04_commute_stmt.
+Proof. exact C04_commute_proof. Qed.
+Print Assumptions C04_commute.
